@@ -694,7 +694,7 @@ class InspectFunction(object):
             sub_fis=[],
             ext_deps=ext_deps_vars,
             ext_vars=sig_variables_distinct,
-        ) or dds_hash([])
+        ) or dds_hash("")  # historical value of this constant (the former hash of the empty list)
         calls_v = IntroVisitor(
             mod, gctx, function_body_lines, input_sig, local_vars, call_stack, fun_path
         )
